@@ -188,6 +188,7 @@ fn handle(req: &Value) -> Value {
         }
         "fs_key" => json!({"out": agentpack::ids::module_fs_key(&str_of(req, "id"))}),
         "sanitize" => json!({"out": agentpack::ids::sanitize_fs_component(&str_of(req, "s"))}),
+        "machine_norm" => json!({"out": agentpack::machine::normalize_machine_id(&str_of(req, "s"))}),
         "legacy_safe" => json!({"out": agentpack::ids::is_safe_legacy_path_component(&str_of(req, "s"))}),
         "markers_format" => {
             json!({"out": agentpack::markers::format_module_section(&str_of(req, "id"), &str_of(req, "content"))})
